@@ -12,6 +12,7 @@ open ALV.Driver.C04 (getMem varJson atomJson gainJson errJson)
   entry "call":
     num, den : [[power, coefficient], …]   raw pairs of `ZFilter(num, den)`
     mem (optional, as in C04), zero : q, xs : [q …]
+    numdiv, dendiv (optional) : a Stream by which the numerator / denominator `Poly` is divided
   entry "expr":
     tree : ["z",k] | ["c",q] | ["s",[q…]] | ["neg",t] | ["add"|"sub"|"mul"|"div", l, r]   (+ mem, zero, xs)
   payload: {"model": {"err":kind}
@@ -115,12 +116,30 @@ def handle (entry : String) (j : Json) : Except String Json := do
     let mem ← getMem j
     let zero ← getRat (← field j "zero")
     let xs ← getList getRat (← field j "xs")
+    -- optional: the polynomials are divided by a Stream first (`Poly.__truediv__`: every
+    -- coefficient divided by its own tee copy of the Stream)
+    let numdiv ← match optField j "numdiv" with
+      | some c => do pure (some (← getCoef c))
+      | none => pure none
+    let dendiv ← match optField j "dendiv" with
+      | some c => do pure (some (← getCoef c))
+      | none => pure none
+    let divM (p : Terms (Coef Rat)) (c : Option (Coef Rat)) : Terms (Coef Rat) :=
+      match c with
+      | none => p
+      | some c => match ALV.C07.divScalar p c with
+        | .ok q => q
+        | .error _ => p
+    let divS (p : List (Int × Coef Rat)) (c : Option (Coef Rat)) : List (Int × Coef Rat) :=
+      match c with
+      | none => p
+      | some c => p.map (fun kv => if kv.2 = 0 then kv else (kv.1, kv.2 / c))   -- a zero stays absent
     let model : Json :=
-      match normalise (mkPoly num) (mkPoly den) with
+      match normalise (divM (mkPoly num) numdiv) (divM (mkPoly den) dendiv) with
       | .error e => errJson e
       | .ok (n0, d0) => callJson n0 d0 mem zero xs
     let spec : Json :=
-      match specCallTV num den mem zero xs with
+      match specCallTV (divS num numdiv) (divS den dendiv) mem zero xs with
       | .error e => errJson e
       | .ok out => Json.mkObj [("out", rats out)]
     pure <| Json.mkObj [("model", model), ("spec", spec)]
